@@ -14,6 +14,7 @@ Fixpoint reads_of (fuel : nat) (n : tnode) : list N :=
       | TBlock named name _ sig_u body => sig_u ++ (if named then [name] else []) ++ flat_map (reads_of f) body
       | TCall sig_u _ _ => sig_u
       | TNamespace _ => []
+      | TFor u _ inside => if inside then n_loop :: u else u
       end
   end.
 
@@ -56,7 +57,7 @@ Lemma visit_ok : forall f own n s,
 Proof.
   induction f as [|f IH]; intros own n s; [split; [apply grows_refl|intros x []]|].
   destruct (simple_grows s) as (Gb & Ga & Gr & Gt & Gc).
-  destruct n as [u d|u d|a u d|root name a sig_u body|named name a sig_u body|sig_u a body|body]; cbn [visit reads_of].
+  destruct n as [u d|u d|a u d|root name a sig_u body|named name a sig_u body|sig_u a body|body|u d inside]; cbn [visit reads_of].
   - unfold check_declared. destruct (reads_ok s u) as (G & C). destruct (simple_grows (reads s u)) as (Gb' & _).
     split; [eapply grows_trans; [exact G|apply Gb']|]. intros x Hx Hc. eapply covered_grows; [apply C; assumption|apply Gb'].
   - unfold check_declared. destruct (reads_ok s u) as (G & C). destruct (simple_grows (reads s u)) as (Gb' & _).
@@ -94,6 +95,9 @@ Proof.
     destruct G3 as (_ & G3u & _). apply G3u. cbn [args_ undeclared]. apply Hname. reflexivity.
   - apply reads_ok.
   - split; [apply grows_refl|intros x []].
+  - unfold check_declared. set (u' := if inside then n_loop :: u else u).
+    destruct (reads_ok s u') as (G & C). destruct (simple_grows (reads s u')) as (Gb' & _).
+    split; [eapply grows_trans; [exact G|apply Gb']|]. intros x Hx Hc. eapply covered_grows; [apply C; assumption|apply Gb'].
 Qed.
 
 Lemma to_write_spec s x : In x (undeclared s) -> In x (to_write s) \/ In x (argument_declared s) \/ In x (locally_declared s).
